@@ -39,7 +39,8 @@ def gen_scenarios(rng, n):
             out.append(dict(type="resume", cfg=cfg, grow=rng.random() < 0.3, split=rng.randint(3, max(4, cfg["nsteps"] - 4))))
         elif i % 6 == 1:
             out.append(dict(type="hb_grow", direction=rng.choice(["min", "max"]), max_epochs=rng.choice([4, 8, 9]), factor=rng.choice([2, 3]), seed=rng.randint(1, 10 ** 6),
-                            hseed=rng.randint(0, 2 ** 31), W=rng.choice([3, 4, 6]), waves=rng.randint(3, 6)))
+                            hseed=rng.randint(0, 2 ** 31), W=rng.choice([3, 4, 6]), waves=rng.randint(3, 6),
+                            score_max=rng.choice([1, 2, 2, 50])))      # few score values: ties among the candidates of a promotion
         elif i % 6 == 4:
             out.append(dict(type="discovery", prog=gen_siblings(rng), seed=rng.randint(1, 10 ** 6)))
         elif i % 3 == 2:
@@ -55,6 +56,7 @@ def gen_scenarios(rng, n):
                 cfg["max_trials"] = rng.choice([4, 5, 6]); cfg["nsteps"] = 24
             if cfg["kind"] == "hyperband":
                 cfg["max_epochs"] = rng.choice([3, 4, 9]); cfg["nsteps"] = rng.randint(25, 60)
+                cfg["W"] = rng.randint(2, 4)
             out.append(dict(type="history", cfg=cfg, grow=rng.random() < 0.6))
     return out
 
